@@ -14,12 +14,15 @@ EXPLANATION = (
 NOT_DECIDED = ["TLS session properties (rustls)"]
 HC = 'ntp_proto::nts::KeyExchangeServer::handle_connection::{closure#0}'
 HL = 'ntp_proto::nts::KeyExchangeServer::handle_longterm::{closure#0}'
-TOKEN = fact_call(r'::any$', True, [r'^slice::iter\(self\.pool_authentication_tokens\)$'], names=True)
-NO_TOKEN = fact_call(r'::any$', False, [r'^slice::iter\(self\.pool_authentication_tokens\)$'], names=True)
+TOKEN = fact_call(r'::any$', True, [r'^slice::iter\(self\.pool_authentication_tokens\)$'])
+NO_TOKEN = fact_call(r'::any$', False, [r'^slice::iter\(self\.pool_authentication_tokens\)$'])
+# the parsed request, in expanded form (no local variable names)
+REQ = r'\(\(parse::\{closure#0\}\(.*Request::parse\(.*\) as Ready\)\.0 as Ok\)\.0'
+PERMIT = r'\w+\{FnOnce::call_once\(get_keepalive_permit, \(\)\) \| Option::None\{\}\}'
 
 
 def arm(v):
-    return fact_is(r'^request$', [v], names=True)
+    return fact_is('^' + REQ + '$', [v])
 
 
 def r1(ctx):
@@ -44,10 +47,10 @@ def r1(ctx):
     for s, what in pool_sites:
         ctx.guard(b, s, 'token', TOKEN, key='handle_connection|%s|%s|token' % (what, site_desc(b, s)),
                   msg='%s is reachable for a pool request without a configured authentication token' % what)
-    tests = [s for s in b.calls(r'::any$') if N(b.call_args(s)[0]) == 'slice::iter(self.pool_authentication_tokens)']
+    tests = [s for s in b.calls(r'::any$') if S(b.call_args(s)[0]) == 'slice::iter(self.pool_authentication_tokens)']
     ctx.check('handle_connection|token-tests', len(tests) == 2, 'token tests: %d' % len(tests), sample=len(tests))
     for s in tests:
-        clo = re.search(r'closure:(.*)$', N(b.call_args(s)[1]))
+        clo = re.search(r'closure:(.*)$', S(b.call_args(s)[1]))
         cb = [c for c in P.bodies.values() if clo and c.id.split('::', 1)[1] == clo.group(1).rstrip(')')]
         vals = [v for c in cb for _, v in ret_assigns(c)]
         ctx.check('handle_connection|%s|compares-authentication' % site_desc(b, s), len(vals) == 1 and re.match(r'^\(v == .*authentication.*\)$|^String::eq\(v, .*authentication', vals[0]) is not None
@@ -56,10 +59,9 @@ def r1(ctx):
     ctx.check('handle_connection|no-token-edges', n == 2, 'no-token edges: %d' % n, sample=n)
     bad = [w for s, w in pool_sites if s.bb in region and not b.must_pass(s.bb, TOKEN)]
     ctx.check('handle_connection|no-token-region|no-issuance', not bad, 'without a token the server still reaches %s' % bad, sample=bad)
-    errs = [s for s in b.aggregates(r'core::result::Result$', 'Err') if 'NotPermitted' in N(b.rvalue_term(s.data['rv'])) and b.must_pass(s.bb, arm(['FixedKey', 'Support']) if False else (lambda f: True))]
-    np_ret = [s for s in b.aggregates(r'core::result::Result$', 'Err') if N(b.rvalue_term(s.data['rv'])) == 'Result::Err{0: NtsError::NotPermitted{}}' and s.bb in region]
+    np_ret = [s for s in b.aggregates(r'core::result::Result$', 'Err') if S(b.rvalue_term(s.data['rv'])) == 'Result::Err{0: NtsError::NotPermitted{}}' and s.bb in region]
     ctx.check('handle_connection|no-token-region|not-permitted', len(np_ret) == 1, 'Err(NotPermitted) in the no-token region: %d' % len(np_ret), sample=len(np_ret))
-    er = [s for s in b.calls(r'ErrorResponse::serialize$') if s.bb in region and N(b.call_args(s)[0]) == 'ErrorResponse{errorcode: ErrorCode::BadRequest{}}']
+    er = [s for s in b.calls(r'ErrorResponse::serialize$') if s.bb in region and S(b.call_args(s)[0]) == 'ErrorResponse{errorcode: ErrorCode::BadRequest{}}']
     ctx.check('handle_connection|no-token-region|bad-request', len(er) >= 1 and all(must_pass_block_from(b, d0, np_ret[0].bb, [e.bb for e in er]) for d0 in edge_targets(b, NO_TOKEN)) if np_ret else False,
               'the no-token path does not answer BadRequest before failing', sample=len(er))
 
@@ -68,40 +70,43 @@ def r2(ctx):
     ctx.rule('C29-R2', 'Ok(Some((permit, io))) (connection kept open) only under keep_alive requested and get_keepalive_permit() returning Some; '
              'the keep_alive flag of the reply is permit.is_some(); plain KeyExchange always answers keep_alive: false and returns Ok(None)')
     b = ctx.P.body(HC)
-    keeps = [s for s in b.aggregates(r'core::result::Result$', 'Ok') if 'Option::Some' in N(b.rvalue_term(s.data['rv']))]
-    ctx.check('handle_connection|keep-open-sites', len(keeps) == 2, 'keep-open results: %d' % len(keeps), sample=[N(b.rvalue_term(s.data['rv'])) for s in keeps])
+    keeps = [s for s in b.aggregates(r'core::result::Result$', 'Ok') if 'Option::Some' in S(b.rvalue_term(s.data['rv']))[:40]]
+    ctx.check('handle_connection|keep-open-sites', len(keeps) == 2, 'keep-open results: %d' % len(keeps), sample=len(keeps))
+    STREAM = r'\(Result::branch\(\(Accept::poll\(.*TlsAcceptor::accept\(self\.acceptor, io\).*\) as Ready\)\.0\) as Continue\)\.0'
     for s in keeps:
-        ctx.guard(b, s, 'permit-granted', fact_is(r'^permit\{FnOnce::call_once\(get_keepalive_permit, \(\)\) \| Option::None\{\}\}$', 'Some', names=True), key='handle_connection|%s|permit' % site_desc(b, s))
+        ctx.guard(b, s, 'permit-granted', fact_is('^' + PERMIT + '$', 'Some'), key='handle_connection|%s|permit' % site_desc(b, s))
         ctx.guard(b, s, 'token', TOKEN, key='handle_connection|%s|token' % site_desc(b, s))
-        ctx.check('handle_connection|%s|value' % site_desc(b, s), N(b.rvalue_term(s.data['rv'])) == 'Result::Ok{0: Option::Some{0: (permit, io)}}', 'kept-open value', s.where())
+        v = S(b.rvalue_term(s.data['rv']))
+        ctx.check('handle_connection|%s|value' % site_desc(b, s), re.match(r'^Result::Ok\{0: Option::Some\{0: \(\(%s as Some\)\.0, %s\)\}\}$' % (PERMIT, STREAM), v, re.S) is not None,
+                  'kept-open value %s' % v[:160], s.where(), sample=v[:80])
     for s in b.calls(r'FnOnce::call_once$'):
-        ctx.guard(b, s, 'keep-alive-requested', lambda f: f.kind == 'bool' and f.pol and re.match(r'^\(request as (FixedKey|Support)\)\.keep_alive$', N(f.term)) is not None,
+        ctx.guard(b, s, 'keep-alive-requested', lambda f: f.kind == 'bool' and f.pol and re.match(r'^\(%s as (FixedKey|Support)\)\.keep_alive$' % REQ, S(f.term), re.S) is not None,
                   key='handle_connection|%s|requested' % site_desc(b, s))
     for s in b.aggregates(r'messages::(KeyExchangeResponse|SupportsResponse)$'):
         rv = s.data['rv']
-        ka = N(b.operand_term(rv['ops'][rv['fields'].index('keep_alive')]))
+        ka = S(b.operand_term(rv['ops'][rv['fields'].index('keep_alive')]))
         if b.must_pass(s.bb, arm('KeyExchange')):
             ctx.check('handle_connection|%s|keep_alive-false' % site_desc(b, s), ka == '0', 'plain key exchange replies keep_alive=%s' % ka, s.where(), sample=ka)
         else:
-            ctx.check('handle_connection|%s|keep_alive-is-permit' % site_desc(b, s), ka == 'Option::is_some(permit{FnOnce::call_once(get_keepalive_permit, ()) | Option::None{}})',
+            ctx.check('handle_connection|%s|keep_alive-is-permit' % site_desc(b, s), re.match(r'^Option::is_some\(%s\)$' % PERMIT, ka) is not None,
                       'reply keep_alive is `%s`' % ka, s.where(), sample=ka)
     ke_ok = [s for s in b.aggregates(r'core::result::Result$', 'Ok') if b.must_pass(s.bb, arm('KeyExchange'))]
-    ctx.check('handle_connection|key-exchange-never-kept', all('Option::None' in N(b.rvalue_term(s.data['rv'])) for s in ke_ok) and len(ke_ok) == 1, 'KeyExchange arm results', sample=[N(b.rvalue_term(s.data['rv'])) for s in ke_ok])
+    ctx.check('handle_connection|key-exchange-never-kept', all(S(b.rvalue_term(s.data['rv'])) == 'Result::Ok{0: Option::None{}}' for s in ke_ok) and len(ke_ok) == 1, 'KeyExchange arm results', sample=len(ke_ok))
 
 
 def r3(ctx):
     ctx.rule('C29-R3', 'handle_longterm: the KeyExchange arm serialises ErrorResponse{BadRequest}, shuts the connection down and returns Err(Invalid); '
              'no cookie is encoded on that arm')
     b = ctx.P.body(HL)
-    ke = fact_is(r'^request$', ['KeyExchange'], names=True)
+    ke = arm('KeyExchange')
     n, region = region_after(b, ke)
     ctx.check('handle_longterm|key-exchange-arm', n == 1, 'KeyExchange arm edges: %d' % n, sample=n)
     starts = edge_targets(b, ke)
     enc = [s for s in b.calls(r'KeySet::encode_cookie$')]
     for s in enc:
-        ctx.guard(b, s, 'fixed-key-arm', fact_is(r'^request$', ['FixedKey'], names=True), key='handle_longterm|%s|fixed-key-only' % site_desc(b, s))
-    errs = [s for s in b.aggregates(r'core::result::Result$', 'Err') if N(b.rvalue_term(s.data['rv'])) == 'Result::Err{0: NtsError::Invalid{}}' and b.must_pass(s.bb, ke)]
-    bad = [s for s in b.calls(r'ErrorResponse::serialize$') if b.must_pass(s.bb, ke) and 'BadRequest' in N(b.call_args(s)[0])]
+        ctx.guard(b, s, 'fixed-key-arm', arm('FixedKey'), key='handle_longterm|%s|fixed-key-only' % site_desc(b, s))
+    errs = [s for s in b.aggregates(r'core::result::Result$', 'Err') if S(b.rvalue_term(s.data['rv'])) == 'Result::Err{0: NtsError::Invalid{}}' and b.must_pass(s.bb, ke)]
+    bad = [s for s in b.calls(r'ErrorResponse::serialize$') if b.must_pass(s.bb, ke) and 'BadRequest' in S(b.call_args(s)[0])]
     shut = [s for s in b.calls(r'AsyncWriteExt::shutdown$') if b.must_pass(s.bb, ke)]
     ctx.check('handle_longterm|key-exchange-rejected', len(errs) == 1 and len(bad) == 1 and len(shut) == 1 and starts and
               must_pass_block_from(b, starts[0], errs[0].bb, [bad[0].bb]) and must_pass_block_from(b, starts[0], errs[0].bb, [shut[0].bb]),
